@@ -52,13 +52,13 @@ def strategy():
                 "path": draw(st.sampled_from([b"/bin/true", b"/x", b"/usr/bin/" + b"n" * 40])), "argv": argv}
 
     NONDEFAULT = {
-        b"output": [b"file:@OUT@/log", b"stdout", b"socket:@OUT@/sock", b"devnull", b"stderr"],
+        b"output": [b"file:@OUT@/log", b"stdout", b"socket:@OUT@/sock", b"devnull", b"stderr", b"syslog", b"syslog"],
         b"message_format": [b"F1 %{cmdline}", b"%{filename}|%{uid}"],
         b"filter_chain": [b"only_uid:4242", b"exclude_uid:0"],
         b"error_logging": [b"yes"],
         b"syslog_facility": [b"LOCAL3", b"MAIL"],
         b"syslog_level": [b"DEBUG", b"ERR"],
-        b"syslog_ident": [b"ident-%{uid}", b"other"],
+        b"syslog_ident": [b"ident-%{uid}", b"other", b"", b"%{env:NOT_SET_ANYWHERE}"],
         b"datasource_message_max_length": [b"255", b"300"],
         b"log_message_max_length": [b"255", b"400"],
     }
@@ -70,7 +70,8 @@ def strategy():
         val = draw(st.sampled_from(NONDEFAULT[opt]))
         base = [(b"message_format", b"T %{filename} %{cmdline}")] if opt != b"message_format" else []
         extra = draw(st.lists(st.sampled_from([(b"error_logging", b"yes"), (b"log_message_max_length", b"255"),
-                                               (b"output", b"file:@OUT@/log"), (b"syslog_level", b"NOTICE")]), max_size=2, unique_by=lambda kv: kv[0]))
+                                               (b"output", b"file:@OUT@/log"), (b"syslog_level", b"NOTICE"), (b"output", b"syslog"), (b"output", b"syslog")]),
+                              max_size=2, unique_by=lambda kv: kv[0]))
         extra = [kv for kv in extra if kv[0] != opt]
         a_opts = draw(st.permutations(base + extra + [(opt, val)]))
         a_ini = gen.render_ini(a_opts)
@@ -184,7 +185,7 @@ def evaluate(env, c):
     # the memory-checked builds see double frees and stale pointers; the plain builds run with the real allocator, where a freed
     # string's address is handed out again at once (ASan's quarantine never does that) -- state keyed on such an address shows there
     ncfg = sum(1 for s in c["steps"] if s["op"] == "cfg")
-    for variant in [v for v in env.builds if v.endswith("asan") or ncfg >= 2]:
+    for variant in [v for v in env.builds if "asan" in v or ncfg >= 2]:
         d = env.driver(variant)
         res, calls = run_history(d, c)
         reports = d.sanitizer_reports()
@@ -297,7 +298,9 @@ FIXED = [
 
 def main():
     ctx = Ctx(PID, "exploration", RULE)
-    bs = ctx.run.build_many(["ts-asan", "nts-asan", "ts-plain", "nts-plain"])
+    # (one more build has the syslog output compiled in, which the default configuration leaves out: openlog()/syslog() keep
+    # process-wide state inside libc between calls)
+    bs = ctx.run.build_many(["ts-asan", "nts-asan", "ts-plain", "nts-plain", {"variant": "ts-asan", "name": "ts-asan-syslog", "extra_configure": ["--enable-output-syslog"]}])
     builds = {b["name"]: b for b in bs}
     ctx.assumptions = ["formats use data sources whose value is identical in the history process and in a fresh child of the same "
                        "driver (everything except pid, tid, tid_kernel, timestamp*, datetime); the pid in the devlog prefix is normalised",
